@@ -56,6 +56,7 @@ def fixture_values(mod, rnd):
     K = mod.K
     good = [K(), K.Inner(), K.Inner.Deep(), mod.Sub(), mod.Plain(), K, K.Inner, K.Inner.Deep, mod.Sub]
     good += [S() for S in mod.SENTINELS] + list(mod.SENTINELS)
+    good += list(mod.TYPING_TDS)                       # typing.TypedDict classes passed around as values
     bad = [c() for c, ok in mod.CLASSES.values() if not ok] + [c for c, ok in mod.CLASSES.values() if not ok]
     out = []
     for pool in (good, good + bad):
@@ -75,7 +76,7 @@ def sentinel_types(mod):
     Type / Union / a TypedDict."""
     from typing import Dict, List, Optional, Type, Union
     out = []
-    for S in list(mod.SENTINELS) + list(mod.ATTR_CLASSES) + [mod.CLASSES["Caf\u00e9"][0]]:
+    for S in list(mod.SENTINELS) + list(mod.ATTR_CLASSES) + [mod.CLASSES["Caf\u00e9"][0]] + list(mod.TYPING_TDS):
         out += [S, List[S], Dict[str, S], Optional[S], Type[S], Union[S, int], Dict[str, List[Optional[S]]],
                 typegen.make_td({"a": S}, {"b": Type[S]})]
     return out
@@ -141,6 +142,63 @@ def twin_types(mod):
     return out
 
 
+# str keys that are instances of str SUBCLASSES with their own __str__ / __repr__ / __hash__: as dict keys (and as
+# TypedDict field names, and in JSON) they are the strings they ARE, not what str() / repr() print
+import enum
+
+
+class Color(str, enum.Enum):
+    RED = "red"
+    GREEN = "green"
+
+
+class Shouty(str):
+    def __str__(self):
+        return self.upper() + "!"
+
+    def __repr__(self):
+        return "<shouty>"
+
+
+class HashCompat(str):
+    def __hash__(self):
+        return str.__hash__(self)
+
+    def __eq__(self, other):
+        return str.__eq__(self, other)
+
+    def __str__(self):
+        return "hc:" + str.__str__(self)
+
+
+STR_SUBCLASS_DICTS = [
+    {Color.RED: 1, Color.GREEN: "x"}, {Color.RED: [1], "blue": None}, {Shouty("a"): 1, "b": 2.0}, {Shouty("only"): (1,)},
+    {HashCompat("h"): 1, HashCompat("i"): {Color.GREEN: 2}}, {"plain": {Shouty("deep"): {Color.RED: 1}}},
+]
+
+
+def str_subclass_types():
+    from monkeytype.typing import get_type, shrink_types
+    out = []
+    for d in STR_SUBCLASS_DICTS:
+        for v in (d, [d], {"outer": d}, (d, 1)):
+            out.append(get_type(v, 10))
+    out.append(shrink_types([get_type({Color.RED: 1, Color.GREEN: 2}, 10), get_type({Color.RED: 1}, 10)], 10))   # optional
+    return out
+
+
+def required_and_optional_types():
+    """TypedDicts with BOTH required and optional fields (merges of dicts with different key sets), also nested"""
+    from monkeytype.typing import get_type, shrink_types
+    out = []
+    pairs = [({"a": 1, "b": "s"}, {"a": 2}), ({"a": 1, "z": None, "m": [1]}, {"m": [2], "k": 1.5}),
+             ({"r": {"x": 1, "y": 2}}, {"r": {"x": 3}}), ({"q": 1, "o": (1,)}, {"q": 2}), ({"only": 1}, {"only": 2, "extra": "s"})]
+    for d1, d2 in pairs:
+        for wrap in (lambda d: d, lambda d: [d], lambda d: {"outer": d}, lambda d: (d, 1)):
+            out.append(shrink_types([get_type(wrap(d1), 10), get_type(wrap(d2), 10)], 10))
+    return out
+
+
 def rewriters():
     from monkeytype import typing as mt
     return [("RemoveEmptyContainers", mt.RemoveEmptyContainers()), ("RewriteConfigDict", mt.RewriteConfigDict()),
@@ -173,6 +231,10 @@ def type_pool(ctx, rnd, mod):
         out.append((t, SITE_FRESH, "namesake or attribute-exposing class"))
     for t in unicode_types():
         out.append((t, SITE_FRESH, "non-ASCII keys"))
+    for t in str_subclass_types():
+        out.append((t, SITE_FRESH, "str-subclass keys"))
+    for t in required_and_optional_types():
+        out.append((t, SITE_FRESH, "required and optional fields"))
     for t in reserved_key_types(rnd):
         out.append((t, SITE_FRESH, "TypedDict keys named like TypedDict() parameters"))
     base = list(out)
@@ -428,6 +490,12 @@ def _run(ctx, rnd, quick, ct, ft, it, names, mod, CallTraceRow, CallTrace, type_
         for X in twin_types(mod)[::3]:
             cases.append(_trace_case(CallTrace, CallTraceRow, func, expect, kind, label, {"a": X}, X, None,
                                      "type", "absent", ct, ft, it, names, dist))
+    # str-subclass keys; TypedDicts with required AND optional fields
+    for label in ("mfunc", "K.meth"):
+        func, expect, kind = mod.FUNCS[label]
+        for X in str_subclass_types() + required_and_optional_types():
+            cases.append(_trace_case(CallTrace, CallTraceRow, func, expect, kind, label, {"a": X, "b": int}, X, X,
+                                     "type", "type", ct, ft, it, names, dist))
     # non-ASCII TypedDict keys, parameter names and identifiers
     for label in ("mfunc", "na\u00efve", "Caf\u00e9.m\u00e9thode"):
         func, expect, kind = mod.FUNCS[label]
@@ -540,7 +608,10 @@ def _run(ctx, rnd, quick, ct, ft, it, names, mod, CallTraceRow, CallTrace, type_
                 "return {absent, NoneType, type} x yield {absent, NoneType, type} x 0-3 argument types (half of them TypedDict-bearing); "
                 "every importable trace's row is also written to a fresh SQLite store, read back (TEXT compared) and decoded; a history "
                 "(rows written + decoded, importlib.reload of the fixture module, same rows decoded again) is judged against the "
-                "post-reload environment; dict keys / parameter names / identifiers beyond ASCII incl. lone surrogates; TypedDict keys named like TypedDict() keyword parameters; "
+                "post-reload environment; dict keys / parameter names / identifiers beyond ASCII incl. lone surrogates; TypedDict keys named like TypedDict() keyword parameters, str-subclass keys (str-mixin Enum "
+                "members, str subclasses overriding __str__/__repr__/__hash__), TypedDicts with required AND optional fields; every decoded "
+                "TypedDict-bearing copy is also read the way its consumers read it (generic TypeRewriter: field_annotations + rebuild) and must "
+                "still corrb the original; "
                 "same-qualname classes in two fixture modules decoded in both orders; wraps decorators publishing __signature__; plain classes "
                 "exposing __args__ / __origin__ / a catch-all metaclass __getattr__; every trace is also built the other way round (argument dict in reverse insertion order, every TypedDict's fields "
                 "reversed, same site) and the raw stored strings of the two CallTraceRows must be identical; same raw-text test for "
@@ -552,9 +623,22 @@ def _run(ctx, rnd, quick, ct, ft, it, names, mod, CallTraceRow, CallTrace, type_
     }
 
 
+def _has_req_and_opt(t):
+    if ej._is_td(t):
+        ann = t.__annotations__
+        try:
+            if ann["required_fields"].__annotations__ and ann["optional_fields"].__annotations__:
+                return True
+        except (KeyError, AttributeError):
+            return False
+        return any(_has_req_and_opt(x) for part in ("required_fields", "optional_fields") for x in ann[part].__annotations__.values())
+    return any(_has_req_and_opt(a) for a in (getattr(t, "__args__", None) or ()) if a is not Ellipsis and a != ())
+
+
 def _type_case(t, t_term, site, origin, it, names, ct, type_to_json, type_from_json, dist, decoded_pool):
     text, ij, err = _encode(type_to_json, t, it, names)
     id_term, rj, dec = "OutOfModel", "OutOfModel", None
+    wj = "OutOfModel"
     impl = err
     if text is not None:
         try:
@@ -562,8 +646,25 @@ def _type_case(t, t_term, site, origin, it, names, ct, type_to_json, type_from_j
             id_term = f"(Ok ({common.reify_type(dec, ct)}))"
             _, rj, rerr = _encode(type_to_json, dec, it, names)
             impl = text[:300]
+            if id_term != f"(Ok ({t_term}))":
+                impl = f"decodes to {repr(dec)[:300]} = {id_term[:300]} (the original is {t_term[:200]})"
             if decoded_pool is not None and ej.has_td(dec):
                 decoded_pool.append(dec)
+            if ej.has_td(dec):
+                # what the readers of a decoded type see: the generic rewriter takes every anonymous TypedDict apart with
+                # typing.field_annotations and rebuilds it with make_typed_dict
+                from monkeytype.typing import TypeRewriter
+                try:
+                    wj = f"(Ok ({common.reify_type(TypeRewriter().rewrite(dec), ct)}))"
+                    if wj != id_term:
+                        impl = (f"the decoded copy as its consumers read it (generic TypeRewriter: typing.field_annotations + rebuild) is "
+                                f"{wj[:300]}, while the decoded copy itself is {id_term[:300]}")
+                    dist["decoded_copies_read_by_consumers"] += 1
+                    if "TTypedDict" in t_term and _has_req_and_opt(dec):
+                        dist["decoded_copies_with_required_and_optional"] += 1
+                except Exception as e:
+                    wj = ej.exn_term(e)
+                    impl = f"TypeRewriter().rewrite(decoded copy) raised {type(e).__name__}: {e}"
         except Exception as e:
             id_term = ej.exn_term(e)
             impl = f"decode raised {type(e).__name__}: {e}"
@@ -587,7 +688,7 @@ def _type_case(t, t_term, site, origin, it, names, ct, type_to_json, type_from_j
         if tag in t_term:
             dist["has_" + tag] += 1
     return {"kind": "type", "obj": t, "site": site, "tree": json.loads(text) if text else None,
-            "term": f"ECType {common.coq_str(site)} ({t_term}) {ij} {id_term} {rj} {pj} {common.coq_bool(ptext_same)}",
+            "term": f"ECType {common.coq_str(site)} ({t_term}) {ij} {id_term} {rj} {pj} {common.coq_bool(ptext_same)} {wj}",
             "desc": repr(t)[:400] + (f" = {t_term[:400]}" if "TTypedDict" in t_term else "") + f"  [{origin}]", "impl": impl,
             "in_scope_guess": text is not None and dec is not None and "c08fx" not in repr(t),
             "nontrivial": any(x in t_term for x in ("TUnion", "TTypedDict", "TList", "TDict", "TTuple", "TSet", "TType", "TGenerator"))}
@@ -614,7 +715,10 @@ def _reload_history(mod, CallTrace, CallTraceRow, ct, ft, it, names, dist):
         func = mod.FUNCS[label][0]
         old_funcs[label] = func
         row = CallTraceRow.from_trace(CallTrace(func, {"x": a(mod)}, r(mod), y(mod)))
-        row.to_trace()                         # a long-running process has decoded it once already
+        try:
+            row.to_trace()                     # a long-running process has decoded it once already
+        except Exception:
+            pass                               # judged by the ordinary trace cases, not here
         before.append(row)
     importlib.reload(mod)
     out = []
